@@ -62,12 +62,14 @@ type Op struct {
 	BadPrev bool   `json:"badprev,omitempty"`
 	H       int32  `json:"h,omitempty"`     // rollback height
 	WFail   int    `json:"wfail,omitempty"` // headers: the k-th BlockHeaders.WriteHeaders call of the operation fails
+	RFail   int    `json:"rfail,omitempty"` // headers: the k-th BlockHeaders.RollbackLastBlock call of the operation cannot truncate the header file
 	Obs     string `json:"obs,omitempty"`
 	Term    string `json:"term,omitempty"`
 	// backlog probes made while the operation was running (-prop C19)
-	Probes []ProbeRec `json:"probes,omitempty"`
-	ftDrop int        // committed blocks removed by the operation (report only)
-	wfHit  bool       // the write fault struck (report only)
+	Probes  []ProbeRec `json:"probes,omitempty"`
+	ftDrop  int        // committed blocks removed by the operation (report only)
+	wfHit   bool       // the write fault struck (report only)
+	crashed bool       // the handler panicked on the injected rollback fault: the process was restarted
 }
 
 type History struct {
@@ -124,8 +126,10 @@ type env struct {
 	ntfn     chan blockntfns.BlockNtfn
 	stackBuf []byte
 	hung     string
-	fault    *faultStore // -prop C19: read faults of the block header store
-	wf       *wfStore    // the block header store given to the block manager (write faults)
+	fault    *faultStore            // -prop C19: read faults of the block header store
+	wf       *wfStore               // the block header store given to the block manager (write and rollback faults)
+	crashEvs []blockntfns.BlockNtfn // notifications of the process that died in the last operation
+	crashes  int
 	// what a restart needs to build a new block manager over the same stores
 	params   *chaincfg.Params
 	memCap   uint32
@@ -136,6 +140,7 @@ type env struct {
 	// ... and so do the checkpoint-fork, flip-flop and write-fault histories
 	r4     *rand.Rand
 	wfHist bool
+	rfHist bool // random rollback faults (histories without checkpoints, not with -prop C19)
 }
 
 // newBM builds a block manager over the environment's stores the way
@@ -152,7 +157,7 @@ func (v *env) newBM() {
 		inner = v.fault
 	}
 	// ... and writes them through one that can make a WriteHeaders call fail
-	v.wf = &wfStore{BlockHeaderStore: inner}
+	v.wf = &wfStore{BlockHeaderStore: inner, file: func() *storeh.FFile { return v.e.BF }}
 	v.bm, err = neutrino.VerifNewBlockManager(*v.params, v.wf, v.e.FS, v.ts, v.memCap)
 	if err != nil {
 		panic(err)
@@ -187,6 +192,41 @@ type wfStore struct {
 	failAt int
 	calls  int
 	hit    bool
+	// rollback faults: the k-th RollbackLastBlock cannot truncate the header
+	// file (injected through the file wrapper of the real store, as the
+	// C07/C08 harnesses do): the index has gone back, the bytes are still
+	// in the file, an error is returned
+	rbFailAt int
+	rbCalls  int
+	rbHit    bool
+	file     func() *storeh.FFile
+}
+
+func (w *wfStore) RollbackLastBlock() (*headerfs.BlockStamp, error) {
+	w.mu.Lock()
+	strike := false
+	if w.rbFailAt > 0 {
+		w.rbCalls++
+		strike = w.rbCalls == w.rbFailAt
+	}
+	w.mu.Unlock()
+	if !strike {
+		return w.BlockHeaderStore.RollbackLastBlock()
+	}
+	f := w.file()
+	f.TruncFail = true
+	bs, err := w.BlockHeaderStore.RollbackLastBlock()
+	f.TruncFail = false
+	if err != nil {
+		w.rbHit = true
+	}
+	return bs, err
+}
+
+func (w *wfStore) armRollback(k int) {
+	w.mu.Lock()
+	w.rbFailAt, w.rbCalls, w.rbHit = k, 0, false
+	w.mu.Unlock()
 }
 
 var errWriteInjected = fmt.Errorf("injected header store write fault")
@@ -370,7 +410,33 @@ func (v *env) exec(op *Op) {
 			hs[i] = t.Nodes[id].Hdr
 			names[i] = fmt.Sprintf("H%d", id)
 		}
-		if op.WFail > 0 {
+		if op.RFail > 0 {
+			// a rollback that cannot truncate the header file: the
+			// handler is expected to panic ("Rollback failed"); that is
+			// the death of the process: the stores are re-opened through
+			// their constructors (start-up recovery runs) and a new
+			// block manager is built over them
+			v.wf.armRollback(op.RFail)
+			old := v.bm
+			func() {
+				defer v.wf.armRollback(0)
+				defer func() {
+					if x := recover(); x != nil {
+						if !v.wf.rbHit {
+							panic(x)
+						}
+						op.crashed = true
+					}
+				}()
+				v.bm.Headers(v.peers[op.Peer], hs)
+			}()
+			if op.crashed {
+				v.crashEvs = append([]blockntfns.BlockNtfn{}, old.DrainNotifications()...)
+				v.restart()
+				v.crashes++
+			}
+			op.Term = fmt.Sprintf("(OHeadersR %d %d %s %d)", op.Peer, op.Now, c.List(names), op.RFail)
+		} else if op.WFail > 0 {
 			v.wf.arm(op.WFail)
 			func() {
 				defer v.wf.arm(0)
@@ -624,6 +690,12 @@ func genOps(r, r2 *rand.Rand, t *Tree, v *env, nops int, now0 int64) []Op {
 		}
 		if v.ntfn == nil {
 			evs = v.bm.DrainNotifications()
+		}
+		if op.crashed {
+			evs, v.crashEvs = v.crashEvs, nil
+			for id := range alive {
+				delete(alive, id)
+			}
 		}
 		op.Obs = v.observe(evs, since)
 		op.ftDrop = ftBefore - int(v.bm.FilterHeaderTip())
@@ -902,6 +974,39 @@ func genOps(r, r2 *rand.Rand, t *Tree, v *env, nops int, now0 int64) []Op {
 		// the control: matches both (adopted up to the first checkpoint)
 		oneMsg(mainTip)
 		syncTo(2, mainTip, v.r4)
+	case t.flip != nil && t.rbf:
+		// the heavier branch B arrives while the block header file cannot
+		// be truncated: the k-th RollbackLastBlock of the reorganisation
+		// fails (index back, bytes still there); the handler panics, the
+		// process restarts (stores re-opened: recovery), the peers connect
+		// again and B is offered once more, then A comes back extended
+		fi := t.flip
+		addPeerAt(1, fi.aExt)
+		syncTo(1, fi.aTip, v.r4)
+		for i := v.r4.Intn(3); i > 0; i-- {
+			if !cfBatch(2+v.r4.Intn(4), false, nil) {
+				break
+			}
+		}
+		d := len(t.path(fi.fork, fi.aTip))
+		emit(Op{Kind: "headers", Peer: 1, Now: nowOK(), Nodes: nodeIDs(t.path(fi.fork, fi.bTip)), RFail: 1 + v.r4.Intn(d)})
+		addPeerAt(2, fi.aExt)
+		firstPeer = 3
+		emit(Op{Kind: "headers", Peer: 2, Now: nowOK(), Nodes: nodeIDs(t.path(fi.fork, fi.bTip))})
+		if v.r4.Intn(2) == 0 {
+			cfBatch(1+v.r4.Intn(3), false, nil)
+		}
+		rf := 0
+		if v.r4.Intn(3) == 0 {
+			rf = 1 + v.r4.Intn(2)
+		}
+		emit(Op{Kind: "headers", Peer: 2, Now: nowOK(), Nodes: nodeIDs(t.path(fi.fork, fi.aExt)), RFail: rf})
+		if rf > 0 {
+			addPeerAt(3, fi.aExt)
+			firstPeer = 4
+			emit(Op{Kind: "headers", Peer: 3, Now: nowOK(), Nodes: nodeIDs(t.path(fi.fork, fi.aExt))})
+		}
+		cfBatch(2+v.r4.Intn(3), false, nil)
 	case t.flip != nil:
 		fi := t.flip
 		addPeerAt(1, fi.aExt)
@@ -1266,6 +1371,10 @@ func genOps(r, r2 *rand.Rand, t *Tree, v *env, nops int, now0 int64) []Op {
 			if len(ns) == 0 {
 				continue
 			}
+			rfail := 0
+			if v.rfHist && len(t.P.Checkpoints) == 0 && v.r4.Intn(4) == 0 {
+				rfail = 1 + v.r4.Intn(2)
+			}
 			wfail := 0
 			if v.wfHist {
 				switch v.r4.Intn(10) {
@@ -1275,7 +1384,10 @@ func genOps(r, r2 *rand.Rand, t *Tree, v *env, nops int, now0 int64) []Op {
 					wfail = 2
 				}
 			}
-			emit(Op{Kind: "headers", Peer: id, Now: nowOf(), Nodes: ns, WFail: wfail})
+			if rfail > 0 {
+				wfail = 0
+			}
+			emit(Op{Kind: "headers", Peer: id, Now: nowOf(), Nodes: ns, WFail: wfail, RFail: rfail})
 		case x < 70:
 			n := -1
 			if r.Intn(5) != 0 {
@@ -1379,6 +1491,10 @@ func runHistory(id int, seed int64, nops int, base string, replay *History) (h H
 			t = genStaleCtxTree(r4, &ps, now0)
 		case smode >= 83 && smode < 90:
 			t = genShortHeavyTree(r4, &ps, now0)
+		case smode >= 90 && smode < 95 && *propFlag != "C19":
+			t = genFlipTree(r4, &ps, now0)
+			t.rbf = true
+			ps.Checkpoints = nil
 		case rmode < 12:
 			t = genRestartTree(r3, &ps, now0)
 		case mode < 15:
@@ -1407,6 +1523,7 @@ func runHistory(id int, seed int64, nops int, base string, replay *History) (h H
 	v.params, v.memCap = params, ps.MemCap
 	v.r3, v.restartHist = r3, restartHist
 	v.r4, v.wfHist = r4, wfHist
+	v.rfHist = (wfHist || restartHist) && *propFlag != "C19" && replay == nil
 	v.newBM()
 	h = History{ID: id, Seed: seed, Params: ps}
 	if replay != nil {
@@ -1442,6 +1559,9 @@ func runHistory(id int, seed int64, nops int, base string, replay *History) (h H
 			since = []int64{0, 1, ft, ft - 1, ft + 1, 2}
 			if v.ntfn == nil {
 				evs = v.bm.DrainNotifications()
+			}
+			if op.crashed {
+				evs, v.crashEvs = v.crashEvs, nil
 			}
 			op.Obs = v.observe(evs, since)
 			h.Ops = append(h.Ops, op)
@@ -1644,6 +1764,12 @@ func main() {
 		reorg, cf := false, false
 		for _, op := range h.Ops {
 			rep.Histogram["op:"+op.Kind]++
+			if op.RFail > 0 {
+				rep.Histogram["headers_with_rollback_fault_armed"]++
+				if op.crashed {
+					rep.Histogram["headers_with_rollback_fault_crash_and_restart"]++
+				}
+			}
 			if op.WFail > 0 {
 				rep.Histogram["headers_with_write_fault_armed"]++
 				if op.wfHit {
@@ -1721,6 +1847,9 @@ func main() {
 		if envs[i].tree.trap2 != nil {
 			rep.Histogram["histories_two_checkpoints_one_reorg_message_scenario"]++
 		}
+		if envs[i].crashes > 0 {
+			rep.Histogram["histories_with_crash_in_rollback"]++
+		}
 		if envs[i].tree.flip != nil {
 			rep.Histogram["histories_flip_flop_scenario"]++
 		}
@@ -1736,7 +1865,7 @@ func main() {
 	rep.Evaluations = n
 	finishLong()
 	rep.DistinctNontrivial = len(distinct)
-	rep.Rule = "histories on the real blockManager handlers over real header stores: a random block tree (main chain 8-30, up to 4 forks incl. work ties and longer branches, single-rule corruptions: pow, bits, time-old, time-new, version) under random parameters (retarget interval 3-8, no-retarget / min-difficulty / BIP94 flags, 0-3 checkpoints, in-memory window 2..10000) revealed by 1-4 peers in chunks, duplicates, overlaps, unconnected batches, with inv, peer arrivals/departures, filter-header batches; scenario histories from a separate PRNG stream: (15%) two checkpoints closer together than one headers message with a valid branch leaving the main chain right after the first one, ONE message from the sync peer through both checkpoint heights while the tip is below the first; (-prop C19, 45%) main chain synced, filter headers committed in batches of >= 3 up to the tip, then a longer valid branch forking >= 2 blocks below the tip, then batches on the new branch; histories with restarts from a third PRNG stream (30%): a restart builds a NEW blockManager (newBlockManager through the verif hook) over the SAME stores, re-installs the notification plumbing and forgets all peers, which have to connect again; (12%) scripted: main chain synced under no-retargeting, filter headers committed, restart, then the new sync peer reveals an equal-work and a lighter branch forking >= 2 blocks below the stored tip (below the whole in-memory window: refused) and a heavier one (adopted); (18%) a restart right before a peer reveals a fork below the stored tip, or at a random point; scenario histories from a fourth PRNG stream: (10%) checkpoint fork under no-retargeting: the client follows a side branch whose tip is exactly ONE BELOW a checkpoint when the heavier main chain through the checkpoint is revealed (handed over by peer departure, restart, or a second peer), or its tip is exactly ON the checkpoint when a heavier branch forking below it is revealed (refused), then a heavier branch forking exactly AT the reached checkpoint (adopted); (10%) flip-flop on one running store: A synced, top of A sent again, heavier B adopted, then A extended by 2-3 headers comes back (adopted), from the same or another peer; (8%) two checkpoints closer together than one message, the client on a side branch below the first: ONE competing message from the fork point through both checkpoint heights that matches the first and contradicts the second (invalid: chain unchanged), then the control matching both; in flip-flop histories and the random stream also messages whose first header (stored, or a valid child of the stored tip) is not the parent of the second while the rest is linked; (15%) a checkpoint above the tip and a single-rule-invalid header (time-old / bits with a valid proof of work for the wrong bits / version / time-new / pow) in EXTENSION position below it, alone or as the suffix of a batch with a valid prefix; (10%) retargeting at a difficulty above the minimum with one period far shorter than timespan/4 and one far longer than timespan*4: at both retarget heights the header computed WITHOUT the clamp (refused, in extension and in reorg position) and the clamped one (accepted); in flip-flop and restart-fork histories also a reorganising message whose linked part only ties with the headers it would displace and whose LAST header does not build on the one before it; (7%) two reorganisation attempts in a row on one running block manager: sibling branches A (accepted) and X (tie or one header lighter, refused) whose timestamps lie many median windows apart (X far earlier or far later), then a longer branch Y forking at an A header whose height X covers, its first header's timestamp between the true median time and the one computed over X (invalid Y: refused; valid Y: adopted); (7%) a fork below a retarget boundary whose branch has FEWER headers than it displaces but strictly more work because one of the two retarget clamps binds (branch period far shorter than timespan/4, or the accepted chain's far longer than timespan*4), revealed in one message (adopted); (8%) the batch reaching a checkpoint is lost to a failing BlockHeaders.WriteHeaders, then a branch connecting to the stored tip with a different header at the checkpoint height; (15%) the k-th WriteHeaders call (k = 1, 2) of random headers messages fails (a wrapper around the block header store; operation OHeadersF); a restart also closes and re-opens both header stores; with -prop C19 also two fixed long-chain backlog histories (both header stores filled with ~4500 entries, a real block manager over them, NotificationsSinceHeight from 2002/2001/2000/1999 blocks below the committed tip, 1, 100, the tip, one above and 0; run-length encoded, judged by coq/C19/ReplayLong.v); with -prop C19 every operation runs against an unbuffered notification channel and NotificationsSinceHeight is probed while the handler is blocked on event k and after it returned (histogram backlog_probes*), also with the n-th FetchHeaderByHeight of the request made to fail through a wrapper of the block header store (backlog_requests_with_read_fault); non-trivial = the history contains a rollback/reorganisation (disconnect events) and committed filter headers (connect events); distinct = distinct op-kind signature"
+	rep.Rule = "histories on the real blockManager handlers over real header stores: a random block tree (main chain 8-30, up to 4 forks incl. work ties and longer branches, single-rule corruptions: pow, bits, time-old, time-new, version) under random parameters (retarget interval 3-8, no-retarget / min-difficulty / BIP94 flags, 0-3 checkpoints, in-memory window 2..10000) revealed by 1-4 peers in chunks, duplicates, overlaps, unconnected batches, with inv, peer arrivals/departures, filter-header batches; scenario histories from a separate PRNG stream: (15%) two checkpoints closer together than one headers message with a valid branch leaving the main chain right after the first one, ONE message from the sync peer through both checkpoint heights while the tip is below the first; (-prop C19, 45%) main chain synced, filter headers committed in batches of >= 3 up to the tip, then a longer valid branch forking >= 2 blocks below the tip, then batches on the new branch; histories with restarts from a third PRNG stream (30%): a restart builds a NEW blockManager (newBlockManager through the verif hook) over the SAME stores, re-installs the notification plumbing and forgets all peers, which have to connect again; (12%) scripted: main chain synced under no-retargeting, filter headers committed, restart, then the new sync peer reveals an equal-work and a lighter branch forking >= 2 blocks below the stored tip (below the whole in-memory window: refused) and a heavier one (adopted); (18%) a restart right before a peer reveals a fork below the stored tip, or at a random point; scenario histories from a fourth PRNG stream: (10%) checkpoint fork under no-retargeting: the client follows a side branch whose tip is exactly ONE BELOW a checkpoint when the heavier main chain through the checkpoint is revealed (handed over by peer departure, restart, or a second peer), or its tip is exactly ON the checkpoint when a heavier branch forking below it is revealed (refused), then a heavier branch forking exactly AT the reached checkpoint (adopted); (10%) flip-flop on one running store: A synced, top of A sent again, heavier B adopted, then A extended by 2-3 headers comes back (adopted), from the same or another peer; (8%) two checkpoints closer together than one message, the client on a side branch below the first: ONE competing message from the fork point through both checkpoint heights that matches the first and contradicts the second (invalid: chain unchanged), then the control matching both; in flip-flop histories and the random stream also messages whose first header (stored, or a valid child of the stored tip) is not the parent of the second while the rest is linked; (15%) a checkpoint above the tip and a single-rule-invalid header (time-old / bits with a valid proof of work for the wrong bits / version / time-new / pow) in EXTENSION position below it, alone or as the suffix of a batch with a valid prefix; (10%) retargeting at a difficulty above the minimum with one period far shorter than timespan/4 and one far longer than timespan*4: at both retarget heights the header computed WITHOUT the clamp (refused, in extension and in reorg position) and the clamped one (accepted); in flip-flop and restart-fork histories also a reorganising message whose linked part only ties with the headers it would displace and whose LAST header does not build on the one before it; (7%) two reorganisation attempts in a row on one running block manager: sibling branches A (accepted) and X (tie or one header lighter, refused) whose timestamps lie many median windows apart (X far earlier or far later), then a longer branch Y forking at an A header whose height X covers, its first header's timestamp between the true median time and the one computed over X (invalid Y: refused; valid Y: adopted); (7%) a fork below a retarget boundary whose branch has FEWER headers than it displaces but strictly more work because one of the two retarget clamps binds (branch period far shorter than timespan/4, or the accepted chain's far longer than timespan*4), revealed in one message (adopted); (5%, not with -prop C19) a heavier branch arrives while the block header file cannot be truncated: the k-th BlockHeaders.RollbackLastBlock of the reorganisation fails like a failed ftruncate (index rolled back, bytes still in the file; injected through the file wrapper of the real store), the handler's panic is the death of the process: both stores are re-opened through their constructors (start-up recovery), a new block manager is built, the peers connect again and the branch is offered once more (operation OHeadersR); the same fault also strikes random headers messages of histories without checkpoints; (8%) the batch reaching a checkpoint is lost to a failing BlockHeaders.WriteHeaders, then a branch connecting to the stored tip with a different header at the checkpoint height; (15%) the k-th WriteHeaders call (k = 1, 2) of random headers messages fails (a wrapper around the block header store; operation OHeadersF); a restart also closes and re-opens both header stores; with -prop C19 also two fixed long-chain backlog histories (both header stores filled with ~4500 entries, a real block manager over them, NotificationsSinceHeight from 2002/2001/2000/1999 blocks below the committed tip, 1, 100, the tip, one above and 0; run-length encoded, judged by coq/C19/ReplayLong.v); with -prop C19 every operation runs against an unbuffered notification channel and NotificationsSinceHeight is probed while the handler is blocked on event k and after it returned (histogram backlog_probes*), also with the n-th FetchHeaderByHeight of the request made to fail through a wrapper of the block header store (backlog_requests_with_read_fault); non-trivial = the history contains a rollback/reorganisation (disconnect events) and committed filter headers (connect events); distinct = distinct op-kind signature"
 	for i := 0; i < n && i < 2; i++ {
 		rep.Samples = append(rep.Samples, hs[i])
 	}
